@@ -1,7 +1,8 @@
 import ParolModel.Proofs.Comments
 /-! Correctness of the specification automaton `firstEndDfa` (KMP) with respect to the declarative
 specification `FirstEnd` (C15). -/
-namespace ParolModel
+namespace ParolModel.Kmp
+open ParolModel
 
 theorem snoc_suffix_snoc {a t : List Nat} {x y : Nat} : a ++ [x] <:+ t ++ [y] ↔ x = y ∧ a <:+ t := by
   rw [← List.reverse_prefix]
@@ -249,4 +250,4 @@ theorem firstEndDfa_accepts_iff (s e : List Nat) (he : e ≠ []) (w : List Nat) 
     · exact h
     · exact absurd (by simpa using hf) (hd [])
 
-end ParolModel
+end ParolModel.Kmp
